@@ -290,17 +290,30 @@ def gen_location(rng):
         d['city'] = gen_plain(rng)
     if rng.random() < 0.4:
         d['code'] = ''.join(rng.choice('0123456789ABC -') for _ in range(rng.randrange(1, 8))).strip() or '1'
-    if rng.random() < 0.5:
+    c = rng.random()
+    if c < 0.35:
         d['latitude'] = gen_coord(rng, 90)
         d['longitude'] = gen_coord(rng, 180)
+    elif c < 0.45:
+        d['latitude'] = gen_coord(rng, 90)                       # latitude only
+    elif c < 0.55:
+        d['longitude'] = gen_coord(rng, 180)                     # longitude only
+    elif c < 0.62:
+        d['latitude'], d['longitude'] = gen_coord(rng, 90), rng.choice(['0', '0.0', '-0'])      # on the Greenwich meridian
+    elif c < 0.69:
+        d['latitude'], d['longitude'] = rng.choice(['0', '0.0', '-0']), gen_coord(rng, 180)     # on the equator
+    elif c < 0.72:
+        d['latitude'], d['longitude'] = '0', '0'
     if not d:
         d['country'] = 'US'
     form = 'dict'
     c = rng.random()
     if c < 0.25:
         form = 'json'
-    elif c < 0.6 and ('country' in d or set(d) == {'latitude', 'longitude'}):
+    elif c < 0.6 and ('country' in d or set(d) == {'latitude', 'longitude'} or set(d) == {'latitude'}):
         form = 'string'
+    if form == 'string' and 'longitude' in d and 'latitude' not in d:
+        form = 'dict'                                            # the colon form cannot say "longitude only"
     return {'form': form, 'value': d}
 
 
@@ -312,6 +325,8 @@ def location_arg(loc):
         return json.dumps(d)
     if set(d) == {'latitude', 'longitude'}:
         return f"{d['latitude']}:{d['longitude']}"
+    if set(d) == {'latitude'}:
+        return d['latitude']
     parts = [d.get('country', ''), d.get('state', ''), d.get('city', ''), d.get('code', ''),
              d.get('latitude', ''), d.get('longitude', '')]
     while parts and parts[-1] == '':
@@ -585,6 +600,7 @@ def loc_fields(d):
          ts(2, d.get('state', '')), ts(3, d.get('city', '')), ts(4, d.get('code', ''))]
     if 'latitude' in d:
         f.append(tv(5, zigzag32(coord_units(d['latitude']))))
+    if 'longitude' in d:
         f.append(tv(6, zigzag32(coord_units(d['longitude']))))
     return f
 
@@ -686,6 +702,93 @@ def expected_read(s):
         e['claim_id'] = s.get('claim_id', '')
     else:
         e['claims'] = list(s['claims'])
+    return e
+
+
+# ------------------------------------------------------------------------------------------------
+# the JSON view (to_dict) users see: compared field by field with what was set
+# ------------------------------------------------------------------------------------------------
+def _coord_view(v):
+    if isinstance(v, str):
+        try:
+            return coord_units(v)
+        except Exception:                        # noqa
+            return ['not a decimal', v]
+    return ['not a string', v]
+
+
+def expected_dict_view(s):
+    t = s['type']
+    e = {'title': s.get('title', ''), 'description': s.get('description', ''), 'tags': expected_tags(s['tags']),
+         'languages': list(s['languages']), 'locations': []}
+    for loc in s['locations']:
+        d = loc['value']
+        x = {k: d[k] for k in ('country', 'state', 'city', 'code') if d.get(k)}
+        for k in ('latitude', 'longitude'):
+            if k in d and coord_units(d[k]) != 0:
+                x[k] = coord_units(d[k])
+        e['locations'].append(x)
+    if t == 'stream':
+        e['fee'] = None
+        if 'fee' in s:
+            fee = s['fee']
+            units = fee_units(fee['currency'], fee['amount'])
+            fr = Fraction(units, 100 if fee['currency'] == 'usd' else 10 ** 8)
+            e['fee'] = {'currency': fee['currency'].upper(), 'address': fee.get('address'),
+                        'amount': [fr.numerator, fr.denominator] if units else None}
+        src = s['source']
+        e['source'] = {k: src.get(k, '') for k in ('sd_hash', 'bt_infohash', 'file_hash')}
+        if src.get('sd_hash') and src.get('bt_infohash'):
+            e['source']['bt_infohash'] = ''
+        e['stream_type'] = MEDIA_TYPE_KIND.get(src['media_type'], 'binary') if src.get('media_type') else None
+        kind = s['media']['kind']
+        e['media'] = {}
+        if kind in MEDIA_FIELDS and any(f in s['media'] for f in MEDIA_FIELDS[kind]):
+            e['media'] = {kind: {f: s['media'][f] for f in MEDIA_FIELDS[kind] if s['media'].get(f)}}
+    elif t == 'channel':
+        e['public_key'] = s.get('public_key', '')
+        e['featured'] = list(s['featured'])
+    elif t == 'repost':
+        e['claim_id'] = s.get('claim_id', '')
+    else:
+        e['claims'] = list(s['claims'])
+    return e
+
+
+def dict_view(claim):
+    t = claim.claim_type
+    d = getattr(claim, t).to_dict()
+    e = {'title': d.get('title', ''), 'description': d.get('description', ''), 'tags': d.get('tags', []),
+         'languages': d.get('languages', []), 'locations': []}
+    for loc in d.get('locations', []):
+        x = {k: loc[k] for k in ('country', 'state', 'city', 'code') if k in loc}
+        for k in ('latitude', 'longitude'):
+            if k in loc:
+                x[k] = _coord_view(loc[k])
+        e['locations'].append(x)
+    if t == 'stream':
+        e['fee'] = None
+        if 'fee' in d:
+            fee = d['fee']
+            amount = None
+            if 'amount' in fee:
+                try:
+                    fr = Fraction(Decimal(fee['amount']))
+                    amount = [fr.numerator, fr.denominator]
+                except Exception:                # noqa
+                    amount = ['not a decimal', fee['amount']]
+            e['fee'] = {'currency': fee.get('currency'), 'address': fee.get('address'), 'amount': amount}
+        src = d.get('source', {})
+        e['source'] = {'sd_hash': src.get('sd_hash', ''), 'bt_infohash': src.get('bt_infohash', ''), 'file_hash': src.get('hash', '')}
+        e['stream_type'] = d.get('stream_type')
+        e['media'] = {k: d[k] for k in ('image', 'video', 'audio') if k in d}
+    elif t == 'channel':
+        e['public_key'] = d.get('public_key', '')
+        e['featured'] = d.get('featured', [])
+    elif t == 'repost':
+        e['claim_id'] = d.get('claim_id', '')
+    else:
+        e['claims'] = d.get('claims', [])
     return e
 
 
@@ -822,6 +925,13 @@ def verify_claim(run, model, case, spec, claim, signature):
             got['langtags'][i] = w
     if got != want:
         bad += diff_keys(got, want)
+    if spec['type'] != 'channel' or spec.get('public_key'):          # Channel.to_dict() needs a key to show
+        try:
+            dv, dw = dict_view(back), expected_dict_view(spec)
+            if dv != dw:
+                bad += ['to_dict()' + x for x in diff_keys(dv, dw)]
+        except Exception as ex:                  # noqa
+            bad.append(f'to_dict() raises {type(ex).__name__}: {ex}')
     plain = claim_pb2.Claim()
     plain.ParseFromString(raw[85:] if spec.get('signed') else raw[1:])
     ptree = msg_tree(plain)
@@ -898,13 +1008,31 @@ def check_bare(run, model, which, sg, kind):
 # an address alone keeps both, clear_fee removes the fee), and everything is verified after every step
 # ------------------------------------------------------------------------------------------------
 MEDIA_FIELDS = {'image': ('width', 'height'), 'video': ('width', 'height', 'duration'), 'audio': ('duration',)}
+MEDIA_CODE = {'image': 0, 'video': 1, 'audio': 2}
+# file names used by the type-switching steps: what the media type / stream type of each must be
+FILES = {'movie.mp4': ('video/mp4', 'video'), 'clip.mkv': ('video/x-matroska', 'video'), 'A.MP4': ('video/mp4', 'video'),
+         'cover.png': ('image/png', 'image'), 'pic.jpg': ('image/jpeg', 'image'), 'song.mp3': ('audio/mpeg', 'audio'),
+         'd.flac': ('audio/flac', 'audio'), 'report.pdf': ('application/pdf', 'document'),
+         'setup.exe': ('application/octet-stream', 'binary'), 'notes.txt': ('text/plain', 'document'),
+         'thing.unknownext': ('application/x-ext-unknownext', 'binary'), 'noext': ('application/octet-stream', 'binary'),
+         'model.stl': ('model/stl', 'model'), 'e.epub': ('application/epub+zip', 'document')}
+MEDIA_TYPE_KIND = dict(FILES.values())
+NON_MEDIA_FILES = [n for n, (_, k) in FILES.items() if k not in MEDIA_FIELDS]
+MEDIA_FILES = [n for n, (_, k) in FILES.items() if k in MEDIA_FIELDS]
+
+
+def media_state(kind, media):
+    """[kind code, width, height, duration] when the image/video/audio sub-message is there, else None"""
+    if kind in MEDIA_FIELDS and media is not None and any(f in media for f in MEDIA_FIELDS[kind]):
+        return [MEDIA_CODE[kind], media.get('width', 0), media.get('height', 0), media.get('duration', 0)]
+    return None
 
 
 def gen_step(rng, spec):
-    kinds = ['fee-new', 'fee-new', 'fee-new', 'title', 'tags', 'release', 'author', 'size']
+    kinds = ['fee-new', 'fee-new', 'fee-new', 'title', 'tags', 'release', 'author', 'size', 'file', 'file', 'file']
     mkind = spec.get('media', {}).get('kind')
     if mkind in MEDIA_FIELDS:
-        kinds += ['media'] * 4
+        kinds += ['media'] * 4 + ['file-non-media'] * 3
     if 'fee' in spec:
         kinds += ['fee-other-currency', 'fee-other-currency', 'fee-other-currency', 'fee-amount', 'fee-address', 'fee-clear']
     k = rng.choice(kinds)
@@ -934,13 +1062,21 @@ def gen_step(rng, spec):
     elif k == 'media':
         fields = [f for f in MEDIA_FIELDS[mkind] if rng.random() < 0.6] or [rng.choice(MEDIA_FIELDS[mkind])]
         st['values'] = {f: rng.choice([0, 0, 0, 1, 2 ** 32 - 1, rng.randrange(1, 2 ** 32)]) for f in fields}
+    elif k in ('file', 'file-non-media'):
+        # the publisher replaces the file: the stream type is guessed again from the new name
+        st['kind'] = 'file'
+        st['name'] = rng.choice(NON_MEDIA_FILES) if k == 'file-non-media' or rng.random() < 0.4 else rng.choice(MEDIA_FILES)
+        if rng.random() < 0.5:
+            # numbers given along with the file, also ones the new type has no use for
+            st['values'] = {f: rng.choice([0, 1, 2 ** 32 - 1, rng.randrange(1, 2 ** 32)])
+                            for f in ('width', 'height', 'duration') if rng.random() < 0.5}
     if k in ('fee-new', 'fee-other-currency', 'fee-amount') and rng.random() < 0.08:
         st['amount'] = rng.choice(['0', '0.0', '0.00'])
     return st
 
 
-def apply_step(claim, spec, st):
-    """the API call for one step; returns the spec as it must read afterwards"""
+def step_effect(spec, st):
+    """-> (keyword arguments of the Stream.update call, the spec as the claim must read afterwards)"""
     spec = json.loads(json.dumps(spec))
     k = st['kind']
     kw = {}
@@ -979,6 +1115,26 @@ def apply_step(claim, spec, st):
     elif k == 'media':
         kw = dict(st['values'])
         spec['media'].update(st['values'])
+    elif k == 'file':
+        name = st['name']
+        media_type, kind = FILES[name]
+        given = st.get('values', {})
+        kw = dict(given, file_name=name)
+        spec['source']['name'], spec['source']['media_type'] = name, media_type
+        old = spec['media']
+        if kind in MEDIA_FIELDS:
+            vals = {f: v for f, v in given.items() if f in MEDIA_FIELDS[kind]}
+            # the same kind keeps what it had; another kind starts from nothing
+            new = dict(old) if old.get('kind') == kind else {'kind': kind}
+            new.update(vals)
+        else:
+            new = {'kind': 'none'}          # document / binary / model: no image, video or audio info may remain
+        spec['media'] = new
+    return kw, spec
+
+
+def apply_step(claim, spec, st):
+    kw, spec = step_effect(spec, st)
     claim.stream.update(**kw)
     return spec
 
@@ -987,17 +1143,13 @@ def gen_sequence(rng):
     spec = gen_claim_spec(rng)
     while spec['type'] != 'stream':
         spec = gen_claim_spec(rng)
-    spec['source'].pop('name', None)          # a later update() would re-guess the media type from the file name
+    spec['source'].pop('name', None)          # update() re-guesses the media type from the file name: names come in by 'file' steps
     steps = []
     cur = spec
     for _ in range(rng.choice([1, 2, 2, 3, 4])):
         st = gen_step(rng, cur)
         steps.append(st)
-        # track only what later steps depend on: is there a fee, and in which currency
-        if st['kind'] in ('fee-new', 'fee-other-currency'):
-            cur = dict(cur, fee={'currency': st['currency'].lower()})
-        elif st['kind'] == 'fee-clear':
-            cur = {k: v for k, v in cur.items() if k != 'fee'}
+        _, cur = step_effect(cur, st)
     return {'spec': spec, 'steps': steps}
 
 
@@ -1014,9 +1166,24 @@ def check_sequence(run, model, seq, kind):
                 return
             run.count('sequence-step:' + st['kind'] + (':on-parsed-copy' if st['reparse'] else ':on-same-object'))
             target = back if st['reparse'] else live          # stream_update works on Claim.from_bytes(old)
+            before = media_state(spec['media'].get('kind'), spec['media'])
             spec = apply_step(target, spec, st)
             back = verify_claim(run, model, dict(case, step=i), spec, target, sig)
             live = target
+            if back is not None and st['kind'] in ('file', 'media'):
+                # the image/video/audio bookkeeping of Stream.update against the model's media_step
+                given = st.get('values', {})
+                new_kind = FILES[st['name']][1] if st['kind'] == 'file' else spec['media']['kind']
+                mod = model.call('media_step', old=before, kind=MEDIA_CODE.get(new_kind), w=given.get('width'),
+                                 h=given.get('height'), d=given.get('duration'))
+                got = read_back(back)
+                run.compare('C16.media_step', dict(case, step=i), media_state(got['stream_type'], got['media']), mod)
+        if back is not None and seq['steps']:
+            # the same final settings assembled directly must give the same bytes
+            direct = build_claim(spec).to_bytes()
+            if direct != live.to_bytes():
+                run.violation(case, f'after the updates the claim is {live.to_bytes().hex()[:300]} but the same settings assembled '
+                                    f'directly give {direct.hex()[:300]}', signature=sig)
     except Exception as ex:                      # noqa
         import traceback
         run.violation(case, f'{type(ex).__name__}: {ex} during an update sequence: ' + traceback.format_exc()[-500:], signature=sig)
@@ -1099,6 +1266,209 @@ def check_purchase(run, model, cid, kind):
         except DecodeError:
             impl = None
         run.compare('C16.purchase_reject', case, impl, model.call('purchase_decode', d=bad.hex()) if not bad.startswith(b'P') else 'accepted')
+
+
+# ------------------------------------------------------------------------------------------------
+# the stored form: the object inside an output script, through a serialised transaction and back
+# (Output.pay_claim_name_pubkey_hash / pay_update_claim_pubkey_hash / pay_support_data_pubkey_hash /
+#  add_purchase_data -> Transaction.raw -> Transaction(raw).outputs[0].claim / .support / .purchase_data)
+# ------------------------------------------------------------------------------------------------
+EMBED_PKH = bytes(range(20))
+EMBED_CLAIM_ID = 'be' * 20
+EMBED_SIG = {'hash': bytes(range(100, 120)).hex(), 'sig': bytes(range(64)).hex()}
+EMBED_SIZES = list(range(70, 81)) + list(range(250, 261)) + list(range(65530, 65541))
+
+
+def embed_build(obj, pad, extra):
+    """an object of the given shape whose text is padded with `pad` characters (`extra` shifts the size by a few bytes)"""
+    if obj in ('stream', 'signed-stream'):
+        c = Claim()
+        c.stream.update(sd_hash='cd' * 48, title='t' * pad)
+        if extra:
+            c.stream.description = 'd' * extra
+        if obj == 'signed-stream':
+            c.signature, c.signing_channel_hash = bytes.fromhex(EMBED_SIG['sig']), bytes.fromhex(EMBED_SIG['hash'])
+        return c
+    if obj == 'channel':
+        c = Claim()
+        c.channel.public_key_bytes = b'\x02' + bytes(range(32))
+        c.channel.title = 'k' * pad
+        if extra:
+            c.channel.description = 'd' * extra
+        return c
+    if obj in ('support', 'signed-support'):
+        sp = Support()
+        if pad:
+            sp.comment = 'c' * pad
+        if extra:
+            sp.emoji = 'e' * extra
+        if obj == 'signed-support':
+            sp.signature, sp.signing_channel_hash = bytes.fromhex(EMBED_SIG['sig']), bytes.fromhex(EMBED_SIG['hash'])
+        return sp
+    p = Purchase()
+    p.claim_hash = bytes((i * 7 + extra) % 256 for i in range(pad))
+    return p
+
+
+def embed_fit(obj, size):
+    """(pad, extra) such that the object serialises to exactly `size` bytes, or None"""
+    for extra in (0, 1, 2):
+        lo, hi = 0, size
+        while lo <= hi:
+            mid = (lo + hi) // 2
+            n = len(embed_build(obj, mid, extra).to_bytes())
+            if n == size:
+                return mid, extra
+            if n < size:
+                lo = mid + 1
+            else:
+                hi = mid - 1
+    return None
+
+
+def check_embedding(run, model, obj, carrier, pad, extra, kind):
+    from lbry.wallet import Transaction, Input, Output
+    case = {'op': 'embed', 'obj': obj, 'carrier': carrier, 'pad': pad, 'extra': extra, 'kind': kind}
+    o = embed_build(obj, pad, extra)
+    data = o.to_bytes()
+    case['size'] = len(data)
+    run.case(case, nontrivial=True)
+    run.count('embed:' + carrier + ':' + ('<76' if len(data) < 76 else '76..255' if len(data) < 256 else '256..65535' if len(data) < 65536 else '>=65536'))
+    sig = {'op': 'embed', 'obj': obj, 'carrier': carrier, 'size': len(data)}
+    name = '@name' if obj == 'channel' else 'name'
+    if carrier == 'claim_name':
+        txo = Output.pay_claim_name_pubkey_hash(1000, name, o, EMBED_PKH)
+    elif carrier == 'update_claim':
+        txo = Output.pay_update_claim_pubkey_hash(1000, name, EMBED_CLAIM_ID, o, EMBED_PKH)
+    elif carrier == 'support_data':
+        txo = Output.pay_support_data_pubkey_hash(1000, name, EMBED_CLAIM_ID, o, EMBED_PKH)
+    else:
+        txo = Output.add_purchase_data(o)
+    try:
+        source = txo.script.source
+        funding = Transaction().add_outputs([Output.pay_pubkey_hash(10 ** 8, EMBED_PKH)])
+        tx = Transaction().add_inputs([Input.spend(funding.outputs[0])]).add_outputs([txo])
+        parsed = Transaction(tx.raw)
+        back = parsed.outputs[0]
+        got = back.claim if carrier in ('claim_name', 'update_claim') else back.support if carrier == 'support_data' else back.purchase_data
+        bad = []
+        if got.to_bytes() != data:
+            bad.append(f'read back {got.to_bytes().hex()[:80]}... instead of {data.hex()[:80]}...')
+        if carrier != 'return_data':
+            if got.is_signed != o.is_signed or got.signature != o.signature or got.signing_channel_hash != o.signing_channel_hash:
+                bad.append('signature envelope differs')
+            if back.claim_name != name:
+                bad.append(f'claim name {back.claim_name!r}')
+            if carrier != 'claim_name' and back.claim_id != EMBED_CLAIM_ID:
+                bad.append(f'claim id {back.claim_id}')
+        if obj in ('stream', 'signed-stream') and (got.stream.title != 't' * pad or got.stream.source.sd_hash != 'cd' * 48):
+            bad.append('title / sd_hash differ')
+        if obj == 'channel' and (got.channel.title != 'k' * pad or got.channel.public_key_bytes != b'\x02' + bytes(range(32))):
+            bad.append('title / public key differ')
+        if obj in ('support', 'signed-support') and (got.comment != 'c' * pad or got.emoji != 'e' * extra):
+            bad.append('comment / emoji differ')
+        if obj == 'purchase' and got.claim_hash != o.claim_hash:
+            bad.append('purchased claim hash differs')
+    except Exception as ex:                      # noqa
+        bad = [f'{type(ex).__name__}: {str(ex)[:120]}']
+        source = back = None
+    if bad:
+        run.violation(case, f'a {len(data)}-byte {obj} stored in a {carrier} output does not come back from the serialised '
+                            f'transaction: ' + '; '.join(bad), signature=sig)
+        return
+    cid_raw = b'' if carrier in ('claim_name', 'return_data') else bytes.fromhex(EMBED_CLAIM_ID)[::-1]
+    nm = b'' if carrier == 'return_data' else name.encode()
+    pk = b'' if carrier == 'return_data' else EMBED_PKH
+    run.compare('C16.embed', case, source.hex(),
+                model.call('embed', carrier=carrier, name=nm.hex(), claim_id=cid_raw.hex(), pkh=pk.hex(), payload=data.hex()))
+    run.compare('C16.extract_payload', case, data.hex(), model.call('extract_payload', src=back.script.source.hex()))
+
+
+# ------------------------------------------------------------------------------------------------
+# object independence: objects built earlier keep their bytes and values when later ones are built
+# ------------------------------------------------------------------------------------------------
+def gen_group(rng):
+    items = []
+    for _ in range(rng.choice([2, 2, 3, 4])):
+        k = rng.choice(['purchase', 'purchase', 'purchase', 'support', 'claim'])
+        if k == 'purchase':
+            items.append({'kind': k, 'claim_id': gen_claim_id(rng) if rng.random() < 0.85 else None,
+                          'via': rng.choice(['constructor', 'constructor', 'setter', 'from_bytes'])})
+        elif k == 'support':
+            items.append({'kind': k, 'spec': gen_support_spec(rng)})
+        else:
+            spec = gen_claim_spec(rng)
+            items.append({'kind': k, 'spec': spec})
+    return items
+
+
+def _build_item(it):
+    """-> (object, snapshot of what it shows)"""
+    if it['kind'] == 'purchase':
+        cid = it['claim_id']
+        if it['via'] == 'constructor':
+            p = Purchase(cid)
+        elif it['via'] == 'setter':
+            p = Purchase()
+            if cid is not None:
+                p.claim_id = cid
+        else:
+            p = Purchase.from_bytes(b'P' + ((b'\x0a\x14' + bytes.fromhex(cid)[::-1]) if cid is not None else b''))
+        want = b'P' + ((b'\x0a\x14' + bytes.fromhex(cid)[::-1]) if cid is not None else b'')
+        return p, want, (lambda o: (o.to_bytes(), o.claim_id, o.claim_hash))
+    if it['kind'] == 'support':
+        sp = it['spec']
+        o = Support()
+        if sp['emoji']:
+            o.emoji = sp['emoji']
+        if sp['comment']:
+            o.comment = sp['comment']
+        if sp['signed']:
+            o.signature, o.signing_channel_hash = bytes.fromhex(sp['signed']['sig']), bytes.fromhex(sp['signed']['hash'])
+        return o, None, (lambda o: (o.to_bytes(), o.emoji, o.comment, o.signature, o.signing_channel_hash))
+    o = build_claim(it['spec'])
+    return o, None, (lambda o: (o.to_bytes(), json.dumps(read_back(o), sort_keys=True)))
+
+
+def check_independence(run, model, items, kind):
+    case = {'op': 'independence', 'items': items, 'kind': kind}
+    run.case(case, nontrivial=True)
+    run.count('independence:%d-objects' % len(items))
+    sig = {'op': 'independence', 'items': items}
+    alive = []
+    try:
+        for i, it in enumerate(items):
+            obj, want, view = _build_item(it)
+            snap = view(obj)
+            if want is not None and snap[0] != want:
+                run.violation(case, f'object {i} ({it["kind"]} {it.get("claim_id")}) serialises to {snap[0].hex()}, expected {want.hex()} '
+                                    f'(built after {i} other objects)', signature=sig)
+                return
+            alive.append((obj, snap, view, it))
+            for j, (o, sn, vw, jt) in enumerate(alive[:-1]):
+                now = vw(o)
+                if now != sn:
+                    run.violation(case, f'object {j} ({jt["kind"]}) changed after object {i} ({it["kind"]}) was built: '
+                                        f'bytes {sn[0].hex()[:120]} -> {now[0].hex()[:120]}', signature=sig)
+                    return
+        fresh = Purchase()
+        if fresh.to_bytes() != b'P' or fresh.claim_hash != b'':
+            run.violation(case, f'a new Purchase() is not empty after others were built: {fresh.to_bytes().hex()}', signature=sig)
+            return
+        for o, sn, vw, jt in alive:
+            if vw(o) != sn:
+                run.violation(case, f'a {jt["kind"]} changed after an empty Purchase() was built', signature=sig)
+                return
+    except Exception as ex:                      # noqa
+        import traceback
+        run.violation(case, f'{type(ex).__name__}: {ex}: ' + traceback.format_exc()[-400:], signature=sig)
+        return
+    # the model is a pure function of each object's own fields: every purchase still encodes as the model says
+    for o, sn, vw, it in alive:
+        if it['kind'] == 'purchase':
+            cid = it['claim_id']
+            etree = [tb(1, bytes.fromhex(cid)[::-1])] if cid else []
+            run.compare('C16.purchase_encode_all', case, sn[0].hex(), model.call('purchase_encode_all', tree=etree))
 
 
 # ------------------------------------------------------------------------------------------------
@@ -1884,7 +2254,12 @@ def main(run):
                 '+-90/+-180) / claim references, with and without a signature envelope (hash set directly or by id); sequences of 1..4 '
                 'further update() calls on one stream claim (fee re-priced in another currency, amount only, address only, clear_fee, title, '
                 'tags, release time), applied to the same object or to the parsed copy and verified after every step; objects with no '
-                'field at all, signed (exactly 85 bytes) and unsigned; supports and '
+                'field at all, signed (exactly 85 bytes) and unsigned; the stored form: stream / signed stream / channel claims, supports and '
+                'purchases padded to every serialised size 70..80, 250..260 and 65530..65540 bytes, put into claim_name / update_claim / '
+                'support / OP_RETURN outputs, serialised as a transaction and read back (quick: the 65530..65540 sweep for three of the seven '
+                'shapes, thorough: all); file-replacing update steps that switch the stream type media <-> document/binary/model; groups of 2..4 purchases / supports / claims built one after another and '
+                're-read afterwards (object independence); the to_dict() JSON view (tags, languages, locations incl. single and zero '
+                'coordinates, fee, hashes, references) against what was set; supports and '
                 'purchases; legacy JSON and v1 protobuf claims built from random values (half of the v1 ones with a publisherSignature: '
                 'unsigned_payload against the message minus field 5) plus the upstream fixtures and three on-chain ytsync claims whose '
                 'signature must validate; damaged bytes '
@@ -1947,6 +2322,26 @@ def main(run):
         if rng.random() < 0.1:
             check_bare(run, model, rng.choice(['support', 'claim']), {'hash': gen_hex(rng, 20), 'sig': gen_hex(rng, 64)}, 'generated')
     check_purchase(run, model, None, 'boundary')
+    # -- stored form: every shape at every size around the three push-encoding boundaries ----------------
+    shapes = [('stream', 'claim_name'), ('stream', 'update_claim'), ('signed-stream', 'claim_name'), ('channel', 'claim_name'),
+              ('support', 'support_data'), ('signed-support', 'support_data'), ('purchase', 'return_data')]
+    for size in EMBED_SIZES:
+        for obj, carrier in shapes:
+            if size > 60000 and run.tier != 'thorough' and (obj, carrier) not in (('stream', 'claim_name'), ('support', 'support_data'),
+                                                                                 ('signed-stream', 'claim_name')):
+                continue
+            fit = embed_fit(obj, size)
+            if fit is None:
+                run.count('embed:size-not-reachable')
+                continue
+            check_embedding(run, model, obj, carrier, fit[0], fit[1], 'size-sweep')
+    for _ in range(q(60, 1500)):
+        obj, carrier = rng.choice(shapes)
+        check_embedding(run, model, obj, carrier, rng.choice([0, 1, 2, 19, 36, 73, rng.randrange(0, 400)]), rng.choice([0, 0, 1, 2]), 'generated')
+    for e in load_corpus('groups.json'):
+        check_independence(run, model, e['items'], 'corpus')
+    for _ in range(q(200, 4000)):
+        check_independence(run, model, gen_group(rng), 'generated')
     for _ in range(q(200, 4000)):
         check_purchase(run, model, gen_claim_id(rng), 'generated')
     # -- legacy ---------------------------------------------------------------------------------------
@@ -2020,6 +2415,10 @@ def replay(run, case):
     op = case.get('op')
     if op == 'claim':
         run_claim_spec(run, model, case['spec'], 'replay')
+    elif op == 'embed':
+        check_embedding(run, model, case['obj'], case['carrier'], case['pad'], case['extra'], 'replay')
+    elif op == 'independence':
+        check_independence(run, model, case['items'], 'replay')
     elif op == 'sequence':
         check_sequence(run, model, case['seq'], 'replay')
     elif op == 'bare':
